@@ -42,6 +42,15 @@ br_ecdsa_i15_bits2int(uint16_t *x,
 	}
 	br_i15_zero(x, ebitlen);
 	br_i15_decode(x, src, len);
+
+	/*
+	 * The decoding set x[0] to the true bit length of the value, which
+	 * is secret (the value may be the ECDSA nonce), and the loop of
+	 * the shift depends on x[0]. We use instead a length that covers
+	 * exactly the words that were written, which depends only on the
+	 * (public) source length.
+	 */
+	x[0] = (uint16_t)(((((uint32_t)len << 3) + 14) / 15) << 4);
 	br_i15_rshift(x, sc);
 	x[0] = ebitlen;
 }
